@@ -17,12 +17,10 @@ IOKinds == {"io", "iosec"}
 NsFull == {0, 2, 3}
 NsTwo == {2, 3}
 NsOne == {2}
-L(s) == s
 A == <<"a">>
 B == <<"b", "c">>
 ShapesFull == {<<A>>, <<A, <<>>, B>>, <<<<>>, A>>, <<<<>>>>, <<B, B, A>>}
 ShapesFew == {<<A>>, <<A, <<>>, B>>}
-Nest3 == 3
 ProbeShape == <<A, <<>>, B>>
 
 HInit == Init /\ hist = <<>>
